@@ -793,11 +793,17 @@ func r10_1(c *Ctx, lf *lexFacts, la *lexAnchors, capOK bool) {
 							guard = true
 						}
 					}
+					if !(isRp && guard) && c.bceProven(in.Pos()) {
+						c.ok(k, in.Pos(), bceWhy)
+						return
+					}
 					c.check(isRp && guard, k, in.Pos(), "input[readPosition] under readPosition < len(input)", "the input is indexed without the dominating `readPosition >= len(input)` test (or not at readPosition): reading past the end panics")
 					return
 				}
 				if why := guardedIndex(f, base, idx, b); why != "" {
 					c.ok(k, in.Pos(), "%s", why)
+				} else if c.bceProven(in.Pos()) {
+					c.ok(k, in.Pos(), bceWhy)
 				} else {
 					c.bad(k, in.Pos(), "index %s[%s] is not shown to be in range", base.Name(), idx.Name())
 				}
@@ -824,7 +830,15 @@ func r10_1(c *Ctx, lf *lexFacts, la *lexAnchors, capOK bool) {
 						// fallback (R10.2): every advance of this function runs on a non-zero current byte, so position never passes len(input)
 						bounded, how = guardedAdvances(lf, f), "every advance in this scanner executes on a current byte known to be non-zero (byte-set analysis), so position <= len(input)"
 					}
+					if !(okLow && okH && bounded) && c.bceProven(in.Pos()) {
+						c.ok(k, in.Pos(), bceWhy)
+						return
+					}
 					c.check(okLow && okH && bounded, k, in.Pos(), "input[a:position] with a an earlier read of position; 0 <= a <= position <= len(input): "+how, "the input slice is not input[<earlier position>:position], or neither the cursor cap (R10.9) nor guarded advances bound position by len(input): slicing can exceed the input and panic")
+					return
+				}
+				if c.bceProven(in.Pos()) {
+					c.ok(k, in.Pos(), bceWhy)
 					return
 				}
 				c.bad(k, in.Pos(), "slice of %s is not shown to be in range", x.X.Name())
@@ -842,8 +856,8 @@ func r10_1(c *Ctx, lf *lexFacts, la *lexAnchors, capOK bool) {
 						allInstrs(g, func(_ *ssa.BasicBlock, _ int, in2 ssa.Instruction) {
 							if st, ok := in2.(*ssa.Store); ok {
 								if fa, ok := st.Addr.(*ssa.FieldAddr); ok && fieldOfAddr(fa) == fld {
-									if _, isMake := st.Val.(*ssa.MakeMap); !isMake {
-										okm = false
+									if _, isMake := st.Val.(*ssa.MakeMap); !isMake && !copyConstructStore(st) {
+										okm = false // (a clone of the same field of another builder is non-nil when that one is)
 									}
 								}
 							}
